@@ -158,8 +158,11 @@ def gen_wing(rng, hist, ID, afnames, controls, side="both", is_main=False, conne
 
 def gen_aircraft(rng, hist=None, max_wings=3, reid=None, sides=("both",), N=None, qc_points_p=0.0,
                  controls=("aileron", "elevator", "rudder"), allow_chain=True, planar=False, allow_explicit=True,
-                 explicit_refs=None, allow_fin=True):
-    """Returns an aircraft dictionary (airfoils inlined)."""
+                 explicit_refs=None, allow_fin=True, dy_p=None):
+    """Returns an aircraft dictionary (airfoils inlined).  dy_p: probability that a connection carries a lateral offset 'dy' (which shifts
+    both halves the same way, so the aircraft is then not laterally symmetric); default 0.3 unless only two-sided surfaces were asked for."""
+    if dy_p is None:
+        dy_p = 0.0 if set(sides) == {"both"} else 0.3
     nf = rng.randint(1, 3)
     afs = gen_airfoils(rng, nf, hist)
     afn = list(afs)
@@ -224,6 +227,17 @@ def gen_aircraft(rng, hist=None, max_wings=3, reid=None, sides=("both",), N=None
         ac["reference"] = {"area": r(rng, 4.0, 12.0, 2), "longitudinal_length": r(rng, 0.5, 1.5, 2),
                            "lateral_length": r(rng, 4.0, 10.0, 2)}
     _tally(hist, "explicit_refs", bool(explicit_refs))
+    # lateral offset of a connection (not on tip chains, where the outer panel would leave the inner one)
+    if dy_p > 0.0:
+        for wn, w in wings.items():
+            c = w.get("connect_to")
+            if wn in ("outer", "winglet"):
+                continue
+            if rng.random() < dy_p:
+                if c is None:
+                    c = w["connect_to"] = {"ID": 0}
+                c["dy"] = r(rng, -0.4, 0.4, 2)
+                _tally(hist, "connect_dy", 1)
     return ac
 
 
